@@ -321,18 +321,14 @@ Lemma tree_scale_checks : forall sc c,
 Proof.
   intros sc c Hc.
   pose proof (coefftree_float_like c Hc) as Hf.
-  rewrite <- (sameshape_float_like sc c Hc), <- (loss_ok_reflects sc (float_like c) Hf).
-  unfold loss_ok, pairs_ok. split.
-  - intros [A [B [ps [E S]]]]. split; [exact A|]. exists ps. split; [exact E|].
+  split.
+  - intros [A [B [ps [E S]]]].
+    apply (sameshape_float_like sc c Hc). apply (loss_ok_reflects sc (float_like c) Hf).
+    unfold loss_ok, pairs_ok. split; [exact A|]. exists ps. split; [exact E|].
     destruct (struct_pairs sc c B) as [ps' [E' L]]. rewrite E in E'. inversion E'; subst.
     unfold snd_leaves in L. rewrite L, S. reflexivity.
-  - intros [A [ps [E S]]]. apply andb_true_iff in S. destruct S as [_ S].
-    split; [exact A|]. split; [|exists ps; auto].
-    apply sameshape_struct. apply (sameshape_float_like sc c Hc).
-    apply (loss_ok_reflects sc (float_like c) Hf). unfold loss_ok, pairs_ok.
-    split; [exact A|]. exists ps. split; [exact E|].
-    destruct (forallb (fun ab : aval * aval => is_leaf (snd ab)) ps) eqn:L; [rewrite S; reflexivity|].
-    exfalso.
-    (* the shapes are equal and sc is numeric: snd leaves follow from the structure of float_like c *)
-    admit_placeholder.
+  - intros K. pose proof (sameshape_struct sc c K) as B.
+    apply (sameshape_float_like sc c Hc) in K. apply (loss_ok_reflects sc (float_like c) Hf) in K.
+    destruct K as [A [ps [E S]]]. unfold pairs_ok in S. apply andb_true_iff in S. destruct S as [_ S].
+    split; [exact A|]. split; [exact B|]. exists ps. auto.
 Qed.
